@@ -852,7 +852,39 @@ fn run_cli(shape: &str, c: &mut Cur<'_>) -> Option<String> {
     }
     let cap = Arc::new(Mutex::new(Captured::default()));
     let transport = Transport { cap: cap.clone(), enc_vals: Arc::new(enc_vals), hdr_status, body: Arc::new(body), trl_status };
-    let grpc = configure_client(tonic::client::Grpc::new(transport), snd, acc)?;
+    // shape prefix `w` / `W`: the client has already been USED before it gets (the rest of) its
+    // configuration — a warm-up call is made after the first configuration call, then the
+    // remaining calls are applied.  What a client sends and advertises must depend only on its
+    // configuration at the time of the call, not on what it was when it was first used.
+    let (warm, shape) = match shape.strip_prefix('w').or_else(|| shape.strip_prefix('W')) {
+        Some(rest) => (true, if shape.starts_with('W') { rest.to_ascii_uppercase() } else { rest.to_string() }),
+        None => (false, shape.to_string()),
+    };
+    let shape = shape.as_str();
+    let grpc = if warm {
+        let mut g = tonic::client::Grpc::new(transport);
+        let calls: Vec<(bool, char)> = snd.chars().filter(|c| *c != '-').map(|c| (true, c)).chain(acc.chars().filter(|c| *c != '-').map(|c| (false, c))).collect();
+        let split = if calls.is_empty() { 0 } else { 1 };
+        for (is_snd, ch) in &calls[..split] {
+            g = if *is_snd { g.send_compressed(enc_of(*ch)?) } else { g.accept_compressed(enc_of(*ch)?) };
+        }
+        // the warm-up call (its outcome is irrelevant; the recording is reset afterwards)
+        RT.with(|rt| {
+            rt.block_on(async {
+                if g.ready().await.is_ok() {
+                    let _ = g.unary(Request::new(b"\0warm".to_vec()), http::uri::PathAndQuery::from_static("/svc/M"), RawCodec).await;
+                }
+            })
+        });
+        let mut g2 = g;
+        for (is_snd, ch) in &calls[split..] {
+            g2 = if *is_snd { g2.send_compressed(enc_of(*ch)?) } else { g2.accept_compressed(enc_of(*ch)?) };
+        }
+        *cap.lock().unwrap() = Captured::default();
+        g2
+    } else {
+        configure_client(tonic::client::Grpc::new(transport), snd, acc)?
+    };
     let refs: Vec<Vec<u8>> = frames.iter().map(|f| f.2.clone()).collect();
     let (items, errs) = match drive_client(grpc, shape, k, &reqmsg, &umd_enc, &umd_acc, &refs) {
         Some(x) => x,
@@ -1608,6 +1640,23 @@ pub fn generate(tier: &str, rng: &mut Rng) -> Vec<String> {
                             out.push(cli_line(shape, "g", "g", &[], &[], 1, b"\0q", &enc, hs, &fr, ts));
                         }
                     }
+                }
+            }
+        }
+    }
+
+    // ---- clients that were already used before their configuration was completed (a warm-up call
+    // after the first configuration call): what they send and advertise must be the same as for a
+    // client configured up front — fresh (`w…`) and cloned after the reconfiguration (`W…`)
+    {
+        let fr = vec![(0u8, 'r', b"\0resp".to_vec())];
+        for snd in ["-", "g", "z"] {
+            for acc in &subsets {
+                for shape in ["wu", "wss", "wcs", "wbi", "WU", "WBI"] {
+                    if snd == "-" && *acc == "-" {
+                        continue;
+                    }
+                    out.push(cli_line(shape, snd, acc, &[], &[], 1, b"\0req", &[], None, &fr, Some(0)));
                 }
             }
         }
